@@ -128,6 +128,26 @@ def handle (op : String) (args : List PyVal) : Option (List PyVal) :=
     let parse := fun c => ((pt.find? fun (x, _) => x == c).map (·.2)).getD none
     let h := fun v => (lookupDigest t v).getD []
     pure [ofStr (format h can parse rec')]
+  | "getmsg", [.str tpl, .list args] => do
+    -- LogRecord.getMessage(): template % args (arguments pre-rendered); Python raising is the value "err"
+    let as ← args.mapM fun v => match v with | .str t => some t.toList | _ => none
+    match (⟨tpl.toList, as, []⟩ : LogRec).getMessage with
+    | some m => pure [ofStr m]
+    | none => pure [.list [.str "err"]]
+  | "formatrec", [.bool can, .str header, .str tpl, .list args, .str trailer, .list parses, .list digests] => do
+    -- LogFormatter.format(record): the record as (template, %-arguments, traceback) behind the header fields
+    let as ← args.mapM fun v => match v with | .str t => some t.toList | _ => none
+    let pt ← decodeParses parses
+    let t ← decodeDigests digests
+    let r : LogRec := ⟨tpl.toList, as, trailer.toList⟩
+    match stdLine header.toList r with
+    | none => pure [.list [.str "err"]]
+    | some rec' =>
+      if !(candidates (splitOn '|' rec')).all (fun c => (pt.find? fun (x, _) => x == c).isSome) then none
+      if !pt.all (fun (_, r) => match r with | some d => coveredObj t d | none => true) then none
+      let parse := fun c => ((pt.find? fun (x, _) => x == c).map (·.2)).getD none
+      let h := fun v => (lookupDigest t v).getD []
+      pure [ofStr (formatRec h can parse (fun r => (stdLine header.toList r).getD []) r), ofStr rec']
   | "event", [.dict base, .dict kvs, .list digests] => do
     let b ← decodeBase base
     let d ← toJsonD kvs
